@@ -40,7 +40,10 @@ ASSUMPTIONS = [
     'structural: close() is called at most once and not from a registered thread',
     'contract of close() ("to be called after all threads are registered"): NOT built into the labels; the theorems '
     'and the oracle speak about the threads whose register() had returned when close() was called '
-    '(registered_before_close); a thread that registers later may miss its callback',
+    '(registered_before_close) AND about the threads whose register() returned later but while close() was still '
+    'waiting for one of those (registered_while_close_waits: C18_late_registration_*, oracle covered_late); only a '
+    'thread that registers after everything close() waits for has been called back may miss its callback '
+    '(C18_late_registration_example_boundary)',
     'harness threads hash to their index so that CPython iterates the set in ascending index order like the model '
     '(iteration order does not influence whether a callback is lost)',
     'the `done` callback is given; it may raise',
